@@ -1,4 +1,5 @@
 import TracklibVerif.Lemmas.GraphBack
+import TracklibVerif.Lemmas.GraphPathExt
 import Mathlib.Algebra.Order.Group.Int
 /-! # C07 — a returned shortest path is a real, optimal, geometrically continuous route
 
@@ -7,6 +8,15 @@ Property theorems only (helper lemmas: `Lemmas/GraphPath.lean` — the invariant
 `Network.shortest_path` = `run_routing_forward(source, target, cut)` followed by `run_routing_backward(target)`
 as it is after fix 9d0d428. Weights: any linearly ordered additive commutative monoid, non-negative (`WFNet`);
 edge ids unique (`UniqueIds`, `EDGES` is a dict); points: any type.
+
+Sections: the four theorems of the design (walk, optimal, geometry chained, unreachable ⇒ None) on point lists;
+any cut-off, also below the true distance (`path_cut_sound`); the same through the TRACK operators of the C04 model
+(`Model/GraphPathExt.lean`: `Track()`, `addObs`, `copy`, `reverse`, `>`, `+` — `track_operators_agree`,
+`geometry_chained_track`, `path_optimal_track`); sequences of calls on one `Network` object with nodes given by id or by
+object and an optional `output_dict` (`session_*`, `backward_after_full_search`, `backward_settled_optimal`,
+`output_dict_entries_sound`). Exact arithmetic: weights are elements of a linearly ordered additive commutative monoid
+(integers, rationals: what the exact correspondence streams use); float rounding of sums is outside the theorems
+(sampled by the float stream of the harness, model instantiated at `Float`).
 
 `Route net geo s l g g' t y` (see `Lemmas/GraphBack.lean`) says: `l ++ [t]` is a list of nodes starting at `s` in which
 each consecutive pair is joined by an existing edge travelled in a direction its orientation permits, `y` is the sum of
@@ -119,6 +129,269 @@ theorem never_diverges (net : Net W) (hnet : WFNet net) (hu : UniqueIds net) (ge
     obtain ⟨l, g, g', y, _, _, hb⟩ := h2 p hpt
     rw [hb]; intro h; cases h
 
+/-! ### with a cut-off (also below the true distance) -/
+
+/-- `shortest_path(s, t, cut)` for ANY cut-off, also one below the true distance (the forward pass then stops on a
+label greater than the cut-off and may leave `t` with a tentative label): whatever is returned as a path is a real
+route from `s` to `t` with its geometry chained, the weights of its edges sum to the value `y` that
+`shortest_distance(s, t, cut)` reports, `y` is at least the true distance `d`, and if `y` does not exceed the
+cut-off then `y = d`. So a returned path is optimal or visibly heavier than the cut-off, never a fake. -/
+theorem path_cut_sound (net : Net W) (hnet : WFNet net) (hu : UniqueIds net) (geo : Geo P) (s t : Nat) (hs : s < net.n)
+    (cut : Option W) (nodes : List Nat) (geom : List P) (h : shortestPath net geo s t cut = .path nodes geom) :
+    ∃ l g g' y d, nodes = l ++ [t] ∧ geom = g ++ [geo.pos t] ∧ Route net geo s l g g' t y ∧
+      shortestDistance net s t cut = some y ∧ IsDist net s t d ∧ d ≤ y ∧ (Within cut y → y = d) := by
+  obtain ⟨l, g, g', y, a, b, _, c, hw, e⟩ := path_is_walk net hnet hu geo s t hs cut nodes geom h
+  cases hr : (run net net.n (St.init s)).d t with
+  | none => exact absurd ⟨y, hw⟩ ((run_none net hnet s hs t).1 hr)
+  | some d =>
+    have hd : IsDist net s t d := (run_isDist net hnet s hs t d).1 hr
+    have hle : d ≤ y := hd.2 y hw
+    refine ⟨l, g, g', y, d, a, b, c, e, hd, hle, fun hwi => ?_⟩
+    have hwd : Within cut d := fun c' hc' => le_trans hle (hwi c' hc')
+    have : shortestDistance net s t cut = some d := by
+      unfold shortestDistance runForward
+      exact forward_label net hnet s t cut d hwd net.n _ _ (inv_init net s hs) hr
+    rw [this] at e
+    exact (Option.some.inj e).symm
+
+/-! ### the track operators (`copy`, `reverse`, `>`, `+`) as modelled for C04 -/
+open TV.GraphExt
+
+omit [IsOrderedAddMonoid W] in
+/-- `shortest_path` with `run_routing_backward` written on TRACKS with the operators of the C04 model
+(`track = track + (edge_geom > 1)` = `Seq.concat track (Seq.dropFirst edge_geom 1)`, `reverse` = copy with the points
+reversed, `Track()` / `addObs`) returns: `None` / a path exactly when the list-level model does, with the same node list,
+the same points, and no analytical feature. The proof uses the C04 property theorems `TV.C04.concat_spec` and
+`TV.C04.dropFirst_spec` for the two operators. -/
+theorem track_operators_agree (net : Net W) (geo : GeoT) (s t : Nat) (cut : Option W) :
+    shortestPathT net geo s t cut = liftBack (shortestPath net geo.toGeo s t cut) :=
+  runBackwardT_eq net geo _ t
+
+/-- T3 through the track operators: when every edge geometry starts at its source's position and ends at its
+target's, the `Track` returned by `shortest_path(s, t, cut)` has exactly the points `pos s` followed by the polylines
+of the edges used, each oriented along the travel and without its first vertex (`edge_geom > 1`: junction vertices
+once); it starts at the position of `s`, ends at the position of `t` and carries no analytical feature. Edge
+polylines are arbitrary lists: repeated vertices, two-vertex and one-vertex geometries, edges stored against the
+direction of travel (`SENS_INVERSE`) and parallel edges are all covered. -/
+theorem geometry_chained_track (net : Net W) (hnet : WFNet net) (hu : UniqueIds net) (geo : GeoT)
+    (hgeo : GeoOK net geo.toGeo) (s t : Nat) (hs : s < net.n) (cut : Option W) (nodes : List Nat) (trk : Seq.Track)
+    (h : shortestPathT net geo s t cut = .path nodes trk) :
+    ∃ l g g' y, nodes = l ++ [t] ∧ Route net geo.toGeo s l g g' t y ∧ trk.pts = geo.pos s :: g' ∧ trk.table = [] ∧
+      trk.pts.head? = some (geo.pos s) ∧ trk.pts.getLast? = some (geo.pos t) := by
+  rw [track_operators_agree] at h
+  obtain ⟨h1, h2⟩ := liftBack_path h
+  obtain ⟨l, g, g', y, a, b, c, d, e⟩ := geometry_chained net hnet hu geo.toGeo hgeo s t hs cut nodes trk.pts h1
+  exact ⟨l, g, g', y, a, b, c, h2, d, e⟩
+
+/-- T1/T2/T4 through the track operators: `None` exactly when the list-level model returns `None`, never a
+divergence; a returned track's points are a route's chain closed by the position of `t`, and without cut-off the
+weights sum to the true distance. -/
+theorem path_optimal_track (net : Net W) (hnet : WFNet net) (hu : UniqueIds net) (geo : GeoT) (s t : Nat) (hs : s < net.n) :
+    shortestPathT net geo s t none ≠ .diverge ∧
+    (shortestPathT net geo s t none = .none ↔ (¬ Reachable net s t ∨ t = s)) ∧
+    (∀ nodes trk, shortestPathT net geo s t none = .path nodes trk →
+      ∃ l g g' y, nodes = l ++ [t] ∧ trk = ⟨g ++ [geo.pos t], []⟩ ∧ Route net geo.toGeo s l g g' t y ∧ IsDist net s t y) := by
+  rw [track_operators_agree]
+  refine ⟨fun h => never_diverges net hnet hu geo.toGeo s t hs none (liftBack_diverge.1 h), ?_, ?_⟩
+  · rw [liftBack_none]
+    constructor
+    · intro h
+      by_contra hc
+      have hc' : Reachable net s t ∧ t ≠ s := by
+        constructor
+        · by_contra h'; exact hc (Or.inl h')
+        · intro h'; exact hc (Or.inr h')
+      obtain ⟨nodes, geom, hp⟩ := reachable_path net hnet hu geo.toGeo s t hs hc'.1 hc'.2
+      rw [h] at hp; cases hp
+    · exact unreachable_none net hnet hu geo.toGeo s t hs none
+  · intro nodes trk h
+    obtain ⟨h1, h2⟩ := liftBack_path h
+    obtain ⟨l, g, g', y, a, b, c, d⟩ := path_optimal net hnet hu geo.toGeo s t hs nodes trk.pts h1
+    refine ⟨l, g, g', y, a, ?_, c, d⟩
+    cases trk with
+    | mk p tb => simp only at b h2; rw [b, h2]; rfl
+
+/-! ### several searches on one `Network` object -/
+
+omit [IsOrderedAddMonoid W] in
+/-- `shortest_path(source, target, cut[, output_dict])` called at any point of a session returns what it returns on
+a fresh network: it does not depend on the flags left on the nodes by earlier searches (`__resetFlags`), on whether
+the nodes are designated by id or by `Node` object (`__correctInputNode`), nor on an `output_dict` being passed; the
+label left on the target is what `shortest_distance` with the same arguments reports. -/
+theorem session_path_fresh (net : Net W) (geo : GeoT) (order : List Nat) (se : Sess W) (s t : NodeArg) (cut : Option W)
+    (ud : Bool) :
+    (stepOp net geo order se (.path s t cut ud)).2 =
+      .path (shortestPathT net geo (correctInputNode s) (correctInputNode t) cut)
+            (shortestDistance net (correctInputNode s) (correctInputNode t) cut) := rfl
+
+omit [IsOrderedAddMonoid W] in
+/-- `shortest_distance(source, target, cut[, output_dict])` at any point of a session = on a fresh network -/
+theorem session_dist_fresh (net : Net W) (geo : GeoT) (order : List Nat) (se : Sess W) (s t : NodeArg) (cut : Option W)
+    (ud : Bool) :
+    (stepOp net geo order se (.dist s (some t) cut ud)).2 =
+      .dist (shortestDistance net (correctInputNode s) (correctInputNode t) cut) := rfl
+
+omit [IsOrderedAddMonoid W] in
+/-- the entries written to a caller's `output_dict` by `shortest_path(s, t, cut, output_dict)` and by
+`shortest_distance(s, t, cut, output_dict)` are the same, and so are the flags left on the nodes -/
+theorem session_path_dist_same_state (net : Net W) (geo : GeoT) (order : List Nat) (se : Sess W) (s t : NodeArg)
+    (cut : Option W) (ud : Bool) :
+    (stepOp net geo order se (.path s t cut ud)).1 = (stepOp net geo order se (.dist s (some t) cut ud)).1 := rfl
+
+/-- STATE MACHINE: in any sequence of calls `shortest_path` / `shortest_distance` / `run_routing_forward` /
+`run_routing_backward` on one network (nodes by id or by object, with or without `output_dict`, any targets and
+cut-offs, `run_routing_backward` for any node after any search), the backward loop always terminates and every track
+returned is the chain of a real route whose edge weights sum to the label of its last node.
+(`OutOk`: what that says of one output; `OpOk`: the source of a call is a node of the network; `SessGood`: the flags are those
+of a forward pass — all three in `Lemmas/GraphPathExt.lean`.) -/
+theorem session_outputs_ok (net : Net W) (hnet : WFNet net) (hu : UniqueIds net) (geo : GeoT) (order : List Nat) :
+    ∀ (ops : List (Op W)) (se : Sess W), (∀ op ∈ ops, OpOk net op) → SessGood net se →
+      (∀ o ∈ (runSession net geo order se ops).1, OutOk net geo o) ∧ SessGood net (runSession net geo order se ops).2 := by
+  intro ops
+  induction ops with
+  | nil => intro se _ hse; exact ⟨fun o ho => (by cases ho), hse⟩
+  | cons op ops ih =>
+    intro se hok hse
+    have hop := hok op (List.mem_cons_self)
+    have hse' := stepOp_good net hnet geo order se op hop hse
+    obtain ⟨ih1, ih2⟩ := ih (stepOp net geo order se op).1 (fun o ho => hok o (List.mem_cons_of_mem _ ho)) hse'
+    refine ⟨?_, ih2⟩
+    intro o ho
+    simp only [runSession, List.mem_cons] at ho
+    rcases ho with rfl | ho
+    · cases op with
+      | path s t cut ud =>
+        have hg := sess_forward_good net hnet se s (some t) cut ud hop
+        simp only [stepOp]
+        split
+        · rename_i st hst
+          obtain ⟨s0, _, hgood⟩ := hg st hst
+          exact backward_out_ok net hu geo s0 st hgood _
+        · trivial
+      | dist s t cut ud =>
+        simp only [stepOp]
+        split <;> trivial
+      | fwd s t cut ud => trivial
+      | back t =>
+        simp only [stepOp]
+        split
+        · trivial
+        · rename_i st hst
+          obtain ⟨s0, _, hgood⟩ := hse st hst
+          exact backward_out_ok net hu geo s0 st hgood _
+    · exact ih1 o ho
+
+/-- paths requested after a distance-only search: after `shortest_distance(s)` / `run_routing_forward(s)` (no target,
+no cut-off), `run_routing_backward(t)` returns `None` exactly when `t` is unreachable or `t = s`, and otherwise a
+route from `s` to `t` whose weights sum to the true distance — for every `t`, in any order, as often as wanted. -/
+theorem backward_after_full_search (net : Net W) (hnet : WFNet net) (hu : UniqueIds net) (geo : GeoT) (s : Nat)
+    (hs : s < net.n) (t : Nat) :
+    runBackwardT net geo (runForward net s none none).1 t ≠ .diverge ∧
+    (runBackwardT net geo (runForward net s none none).1 t = .none ↔ (¬ Reachable net s t ∨ t = s)) ∧
+    (∀ nodes trk, runBackwardT net geo (runForward net s none none).1 t = .path nodes trk →
+      ∃ l g g' y, nodes = l ++ [t] ∧ trk = ⟨g ++ [geo.pos t], []⟩ ∧ Route net geo.toGeo s l g g' t y ∧ IsDist net s t y) := by
+  have hg : Good net s (runForward net s none none).1 := forward_good net hnet s none none net.n _ [] (good_init net s hs)
+  have hrun : (runForward net s none none).1 = run net net.n (St.init s) := forward_full net net.n _ []
+  obtain ⟨h1, h2⟩ := runBackward_spec net hu geo.toGeo s _ hg t
+  obtain ⟨hinv, rk, K, hp⟩ := hg
+  rw [runBackwardT_eq]
+  cases hpt : (runForward net s none none).1.pred t with
+  | none =>
+    rw [h1 hpt]
+    refine ⟨fun h => (by cases h), ⟨fun _ => ?_, fun _ => rfl⟩, fun _ _ h => by cases h⟩
+    by_cases hts : t = s
+    · exact Or.inr hts
+    · left
+      cases hd : (runForward net s none none).1.d t with
+      | none => rw [hrun] at hd; exact (run_none net hnet s hs t).1 hd
+      | some y =>
+        have := hp.p3 t y hts hd
+        rw [hpt] at this; cases this
+  | some p =>
+    obtain ⟨l, g, g', y, hd, hr, hb⟩ := h2 p hpt
+    rw [hb]
+    refine ⟨fun h => (by cases h), ⟨fun h => (by cases h), fun h => ?_⟩, fun nodes trk h => ?_⟩
+    · rcases h with h | h
+      · exact absurd ⟨y, hr.walk⟩ h
+      · subst h; rw [hp.p1] at hpt; cases hpt
+    · simp only [liftBack, BackT.path.injEq] at h
+      obtain ⟨rfl, rfl⟩ := h
+      rw [hrun] at hd
+      exact ⟨l, g, g', y, rfl, rfl, hr, (run_isDist net hnet s hs t y).1 hd⟩
+
+/-- paths requested after a search that was STOPPED (at another target `t0`, or by a cut-off): for every node `t ≠ s`
+that the search had settled (`visite`) before it stopped, `run_routing_backward(t)` returns a route from `s` to `t`
+whose weights sum to the true distance. (Nodes labelled but not settled may get a tentative route:
+`session_outputs_ok` / `path_cut_sound`.) -/
+theorem backward_settled_optimal (net : Net W) (hnet : WFNet net) (hu : UniqueIds net) (geo : GeoT) (s : Nat)
+    (hs : s < net.n) (t0 : Option Nat) (cut : Option W) (t : Nat)
+    (hv : (runForward net s t0 cut).1.vis t = true) (hts : t ≠ s) :
+    ∃ l g g' y, runBackwardT net geo (runForward net s t0 cut).1 t = .path (l ++ [t]) ⟨g ++ [geo.pos t], []⟩ ∧
+      Route net geo.toGeo s l g g' t y ∧ IsDist net s t y := by
+  have hg : Good net s (runForward net s t0 cut).1 := forward_good net hnet s t0 cut net.n _ [] (good_init net s hs)
+  obtain ⟨_, h2⟩ := runBackward_spec net hu geo.toGeo s _ hg t
+  obtain ⟨hinv, rk, K, hp⟩ := hg
+  obtain ⟨x, hx⟩ := hinv.j5 t hv
+  have hsome := hp.p3 t x hts hx
+  cases hpt : (runForward net s t0 cut).1.pred t with
+  | none => rw [hpt] at hsome; cases hsome
+  | some p =>
+    obtain ⟨l, g, g', y, hd, hr, hb⟩ := h2 p hpt
+    refine ⟨l, g, g', y, ?_, hr, settled_label_isDist net hnet s _ hinv t y hv hd⟩
+    rw [runBackwardT_eq, hb]; rfl
+
+/-- the `output_dict` of `shortest_path(s, t, cut, output_dict)` (and of any other search): every entry
+`(s, u) ↦ y` written is the true distance from `s` to `u`, and does not exceed the cut-off. (The target itself is not
+written: the loop stops before recording it.) -/
+theorem output_dict_entries_sound (net : Net W) (hnet : WFNet net) (s : Nat) (hs : s < net.n) (t0 : Option Nat)
+    (cut : Option W) (u : Nat) (y : W) (h : (u, y) ∈ (runForward net s t0 cut).2) : IsDist net s u y ∧ Within cut y := by
+  have hinv : Inv net s (runForward net s t0 cut).1 := forward_inv net hnet s t0 cut net.n _ [] (inv_init net s hs)
+  obtain ⟨a, b, c⟩ := forward_out_settled net t0 cut net.n (St.init s) [] (fun p hp => by cases hp) (u, y) h
+  exact ⟨settled_label_isDist net hnet s _ hinv u y a b, c⟩
+
+/-! ### the network as `addNode` / `addEdge` build it -/
+
+/-- For a network built by successive `addEdge(edge, source, target)` calls (edge ids unique): `EDGES` holds the edges in
+insertion order; looking up the ids of `NEXT_EDGES[u]` in `EDGES` yields `pyNext` — each edge that may be left from `u`,
+in insertion order, a two-way edge from `u` to `u` twice; and the relaxation loop of one iteration of
+`run_routing_forward` over that list (after `pere.visite = True`) has exactly the effect of the loop over the model's
+`nextEdges net u`, in which every edge occurs once. So every theorem about the model's forward pass is about the
+adjacency lists that `addEdge` actually fills. -/
+theorem next_edges_as_built (n : Nat) (es : List (Edge W × P × P)) (hu : UniqueIds ⟨n, es.map (·.1)⟩) (u : Nat) (du : W)
+    (st : St W) (hv : st.vis u = true) :
+    (build NetObj.empty es).edges = es.map (·.1) ∧
+    ((build NetObj.empty es).next u).filterMap (findEdge ⟨n, es.map (·.1)⟩) = pyNext ⟨n, es.map (·.1)⟩ u ∧
+    (pyNext ⟨n, es.map (·.1)⟩ u).foldl (relaxOne u du) st = (nextEdges ⟨n, es.map (·.1)⟩ u).foldl (relaxOne u du) st := by
+  obtain ⟨h1, h2⟩ := build_spec es (NetObj.empty : NetObj W P)
+  refine ⟨by simpa [NetObj.empty] using h1, ?_, pyNext_fold _ u du st hv⟩
+  rw [h2 u]
+  simp only [NetObj.empty, List.nil_append]
+  exact lookup_next ⟨n, es.map (·.1)⟩ hu u (es.map (·.1)) (fun e he => he)
+
+omit [AddCommMonoid W] [LinearOrder W] [IsOrderedAddMonoid W] in
+/-- the position of a node is the coordinate of its FIRST registration: later `addNode` / `addEdge` calls that mention
+the same id with other `Node` objects (other coordinates) do not change it, and `addEdge` registers both its ends. This
+is the position `run_routing_backward` starts the geometry with (`Obs(node.coord)`). -/
+theorem first_registration_wins (nb : NetObj W P) (es : List (Edge W × P × P)) (e : Edge W) (sc tc : P) (v : Nat) (p : P) :
+    (posOf nb v = some p → posOf (build nb es) v = some p) ∧
+    (∃ q, posOf (addEdge nb e sc tc) e.src = some q) ∧ (∃ q, posOf (addEdge nb e sc tc) e.tgt = some q) := by
+  refine ⟨build_posOf es nb v p, ?_, ?_⟩
+  · obtain ⟨q, hq⟩ := addNode_registers nb e.src sc
+    have h2 := addNode_posOf (addNode nb e.src sc) e.tgt tc e.src q hq
+    refine ⟨q, ?_⟩
+    unfold addEdge
+    simp only []
+    generalize addNode (addNode nb e.src sc) e.tgt tc = nb' at h2 ⊢
+    unfold posOf at h2 ⊢
+    by_cases ha : 0 ≤ e.ori <;> by_cases hb : e.ori ≤ 0 <;> simp [ha, hb, h2]
+  · obtain ⟨q, h2⟩ := addNode_registers (addNode nb e.src sc) e.tgt tc
+    refine ⟨q, ?_⟩
+    unfold addEdge
+    simp only []
+    generalize addNode (addNode nb e.src sc) e.tgt tc = nb' at h2 ⊢
+    unfold posOf at h2 ⊢
+    by_cases ha : 0 ≤ e.ori <;> by_cases hb : e.ori ≤ 0 <;> simp [ha, hb, h2]
+
 /-! ### the hypotheses are satisfiable by a non-trivial network, and the model computes on it -/
 
 /-- 0 –(w 0, two-way)– 1 ; edge 1 stored 2→1 but only travelled 1→2 (orientation −1) with a bent polyline;
@@ -144,5 +417,84 @@ example : GeoOK demo demoGeo := by
 example : shortestPath demo demoGeo 0 2 none = .path [0, 1, 2] [(0, 0), (1, 0), (1, 1), (2, 0)] := by decide +kernel
 example : shortestPath demo demoGeo 2 0 none = .none := by decide +kernel
 example : shortestPath demo demoGeo 0 0 none = .none := by decide +kernel
+
+/-! ### the same through the track operators, with awkward geometries; a session; a cut-off below the distance -/
+
+/-- observation number `k` (the tag identifies the vertex occurrence: the returned track starts with the first edge's own
+vertex and ends with `Obs(target.coord)`; under `GeoOK` their positions are those of the two nodes) -/
+def ob (k : Nat) : Seq.Obs := ⟨k, 0, []⟩
+
+/-- nodes 0,1,2 at observations 0,1,2. Edge 0: 0–1 two-way, weight 0, with a REPEATED vertex (10, 10, 11);
+edge 1: stored 2→1, travelled 1→2 only (`SENS_INVERSE`), three vertices, carrying an analytical feature;
+edges 2 and 3: PARALLEL, equal weight 5, 1→2, a two-vertex and a one-vertex geometry. -/
+def demoT : GeoT :=
+  { pos := ob,
+    geom := fun i => if i = 0 then ⟨[ob 10, ob 10, ob 11], []⟩ else if i = 1 then ⟨[ob 20, ob 21, ob 22], [("speed", 0)]⟩
+                     else if i = 2 then ⟨[ob 30, ob 31], []⟩ else ⟨[ob 40], []⟩ }
+def demo4 : Net Int :=
+  { n := 3, edges := [⟨0, 0, 1, 0, 0⟩, ⟨1, 2, 1, 1, -1⟩, ⟨2, 1, 2, 5, 1⟩, ⟨3, 1, 2, 5, 1⟩] }
+
+/-- `track + (edge_geom > 1)` twice, the second polyline reversed; the result has no analytical feature although edge 1 has -/
+example : shortestPathT demo4 demoT 0 2 none = .path [0, 1, 2] ⟨[ob 10, ob 10, ob 22, ob 21, ob 2], []⟩ := by decide +kernel
+example : shortestPathT demo4 demoT 1 0 none = .path [1, 0] ⟨[ob 11, ob 10, ob 0], []⟩ := by decide +kernel
+example : shortestPathT demo4 demoT 2 0 none = .none := by decide +kernel
+
+/-- a session: backward before any search; a path with the target given as an object and an `output_dict`; a distance-only
+search followed by backward passes to two targets; source = target; an unreachable target after a reachable one;
+a cut-off below the true distance of the target -/
+example : (runSession demo4 demoT [0, 1, 2] Sess.start
+      [.back (.id 2), .path (.id 0) (.obj 2) none true, .dist (.obj 0) none none false, .back (.id 1), .back (.obj 2),
+       .path (.id 1) (.id 1) none false, .path (.id 2) (.id 0) none false, .path (.id 1) (.id 2) (some 0) false]).1 =
+    [.attrErr,
+     .path (.path [0, 1, 2] ⟨[ob 10, ob 10, ob 22, ob 21, ob 2], []⟩) (some 1),
+     .dists [some 0, some 0, some 1],
+     .path (.path [0, 1] ⟨[ob 10, ob 10, ob 1], []⟩) (some 0),
+     .path (.path [0, 1, 2] ⟨[ob 10, ob 10, ob 22, ob 21, ob 2], []⟩) (some 1),
+     .path .none (some 0),
+     .path .none none,
+     .path (.path [1, 2] ⟨[ob 22, ob 21, ob 2], []⟩) (some 1)] := by decide +kernel
+
+/-- the same network with geometries that JOIN the node positions (`GeoOK`): edge 0 has a repeated vertex, edge 1 is stored
+against the travel, edges 2 and 3 are parallel with equal weights and different polylines -/
+def demoT2 : GeoT :=
+  { pos := ob,
+    geom := fun i => if i = 0 then ⟨[ob 0, ob 10, ob 10, ob 1], []⟩ else if i = 1 then ⟨[ob 2, ob 21, ob 1], [("speed", 0)]⟩
+                     else if i = 2 then ⟨[ob 1, ob 2], []⟩ else ⟨[ob 1, ob 30, ob 2], []⟩ }
+example : WFNet demo4 := by
+  intro e he
+  simp only [demo4, List.mem_cons, List.not_mem_nil, or_false] at he
+  rcases he with rfl | rfl | rfl | rfl <;> simp [demo4]
+example : UniqueIds demo4 := by
+  intro e he e' he' h
+  simp only [demo4, List.mem_cons, List.not_mem_nil, or_false] at he he'
+  rcases he with rfl | rfl | rfl | rfl <;> rcases he' with rfl | rfl | rfl | rfl <;> simp_all
+example : GeoOK demo4 demoT2.toGeo := by
+  intro e he
+  simp only [demo4, List.mem_cons, List.not_mem_nil, or_false] at he
+  rcases he with rfl | rfl | rfl | rfl <;> simp [demoT2, GeoT.toGeo]
+example : shortestPathT demo4 demoT2 0 2 none = .path [0, 1, 2] ⟨[ob 0, ob 10, ob 10, ob 1, ob 21, ob 2], []⟩ := by decide +kernel
+example : ∀ op ∈ [Op.back (.id 2), Op.path (.id 0) (.obj 2) none true, Op.dist (.obj 0) none (none : Option Int) false], OpOk demo4 op := by
+  intro op h
+  simp only [List.mem_cons, List.not_mem_nil, or_false] at h
+  rcases h with rfl | rfl | rfl <;> simp [OpOk, correctInputNode, demo4]
+
+/-- with a cut-off below the true distance the path returned may be a tentative one: 0 →1→ 1 →1→ 2 and 0 →5→ 2, cut-off 0:
+the search stops when node 1 (label 1 > 0) is popped, node 2 still carries the label 5 through the direct edge.
+`path_cut_sound`: a real route, weight 5 = the reported value ≥ the true distance 2, and 5 exceeds the cut-off. -/
+def demoCut : Net Int := { n := 3, edges := [⟨0, 0, 1, 1, 1⟩, ⟨1, 1, 2, 1, 1⟩, ⟨2, 0, 2, 5, 1⟩] }
+def demoCutGeo : Geo Nat := { pos := fun v => v, line := fun i => if i = 0 then [0, 1] else if i = 1 then [1, 2] else [0, 7, 2] }
+example : shortestPath demoCut demoCutGeo 0 2 (some 0) = .path [0, 2] [0, 7, 2] := by decide +kernel
+example : shortestDistance demoCut 0 2 (some 0) = some 5 := by decide +kernel
+example : shortestPath demoCut demoCutGeo 0 2 none = .path [0, 1, 2] [0, 1, 2] := by decide +kernel
+example : shortestPath demoCut demoCutGeo 0 2 (some 1) = .path [0, 1, 2] [0, 1, 2] := by decide +kernel
+
+/-- `demo4` built by four `addEdge` calls; node 1 is registered first with the coordinate `ob 1`, the later registrations
+with `ob 99` are ignored; `NEXT_EDGES[1]` = edges 0 (two-way), 1 (stored 2→1, travelled 1→2), 2, 3 -/
+def demoBuild : NetObj Int Seq.Obs :=
+  build NetObj.empty [(⟨0, 0, 1, 0, 0⟩, ob 0, ob 1), (⟨1, 2, 1, 1, -1⟩, ob 2, ob 99), (⟨2, 1, 2, 5, 1⟩, ob 99, ob 98), (⟨3, 1, 2, 5, 1⟩, ob 1, ob 2)]
+example : demoBuild.edges.map (·.id) = demo4.edges.map (·.id) ∧ demoBuild.next 1 = [0, 1, 2, 3] ∧ demoBuild.next 2 = [] ∧
+    posOf demoBuild 1 = some (ob 1) ∧ posOf demoBuild 2 = some (ob 2) := by decide +kernel
+/-- a two-way edge from a node to itself is entered twice in `NEXT_EDGES` -/
+example : (build (NetObj.empty : NetObj Int Nat) [(⟨7, 0, 0, 1, 0⟩, 5, 5)]).next 0 = [7, 7] := by decide +kernel
 
 end TV.C07
